@@ -461,9 +461,31 @@ def validate_one(buf, expected=None):
     if expected is not None and pdu is not None and not problems:
         got = describe(pdu)
         if got != expected:
-            problems.append(("content-mismatch", pdu["type"], "decoded %s, expected %s" % (
-                json.dumps(_first_diff(got, expected))[:400], "(see replay)")))
+            d = _first_diff(got, expected)
+            problems.append(("content-mismatch", _norm_path(d.get("path", ""), got),
+                             "decoded content differs from what was written at %s: %s" % (
+                                 d.get("path"), json.dumps(d)[:300])))
     return problems
+
+
+def _norm_path(path, got):
+    """'/user[3]/scp' -> 'user/role/scp' (indices dropped, user sub-item kind inserted)."""
+    import re
+    out = []
+    node = got
+    for comp in [c for c in path.split("/") if c]:
+        m = re.match(r"^([^\[]+)(?:\[(\d+)\])?$", comp)
+        name, idx = (m.group(1), m.group(2)) if m else (comp, None)
+        out.append(name)
+        try:
+            node = node[name]
+            if idx is not None:
+                node = node[int(idx)]
+                if isinstance(node, dict) and "t" in node:
+                    out.append(str(node["t"]))
+        except Exception:
+            node = {}
+    return "/".join(out) or "?"
 
 
 def _first_diff(a, b, path=""):
